@@ -35,7 +35,8 @@ GLOB, REGEX = "exclusions", "regex_exclusions"
 
 
 def _allow(caller: FuncInfo, callee: FuncInfo) -> bool:
-    return callee.cls is None
+    # module-level helpers and class-level factories (the scan's own methods stay calls: the constructors are the sink)
+    return callee.cls is None or callee.is_classmethod or callee.is_staticmethod
 
 
 @dataclass
@@ -110,7 +111,39 @@ class Exec:
             m = map_of(e)
             if m is not None:
                 return self._map(e, m, env, depth)
+        if isinstance(e, ast.Attribute):
+            out = []
+            for g, t in self.terms(e.value, env, depth + 1):
+                got = None
+                if t[0] == "ctor":
+                    ci = self.repo.classes.get(t[1])
+                    if ci is not None:
+                        got = self._field(t, ci, e.attr)
+                if got is None:
+                    return [(TRUE, ("other", norm(e, 80)))]
+                out += [(f_and([g, g2]), t2) for g2, t2 in got]
+            return out
         return [(TRUE, ("other", norm(e, 80)))]
+
+    def _field(self, term, ci: ClassInfo, name: str):
+        """Alternatives of the constructor argument stored in attribute `name` (dataclass field, or `self.name = <param>` in __init__)."""
+        _k, _fq, args, kws = term
+        init = self.repo.lookup_method(ci, "__init__")
+        if init is None:
+            names = [n for c in reversed(self.repo.mro(ci)) for n in c.ann_attrs]
+            param = name
+        else:
+            names = list(init.param_names[1:])
+            param = None
+            for n in ast.walk(init.node):
+                if isinstance(n, ast.Assign) and len(n.targets) == 1 and isinstance(n.targets[0], ast.Attribute) and isinstance(n.targets[0].value, ast.Name) and n.targets[0].value.id == init.param_names[0] and n.targets[0].attr == name and isinstance(n.value, ast.Name):
+                    param = n.value.id
+        if param is None or param not in names:
+            return None
+        if param in kws:
+            return kws[param]
+        i = names.index(param)
+        return args[i] if i < len(args) else None
 
     def _orig(self, e: ast.AST) -> ast.AST:
         src = getattr(e, "_src", None)
@@ -259,6 +292,39 @@ class Exec:
                 out.append(level)
         return out
 
+    def _mutation(self, call: ast.expr, env: dict, kill_only: bool = False) -> None:
+        """`L.extend(<element-wise build>)` on an empty list is that build; any other mutation of a tracked name makes it opaque."""
+        if not (isinstance(call, ast.Call) and isinstance(call.func, ast.Attribute) and isinstance(call.func.value, ast.Name)):
+            return
+        name, attr = call.func.value.id, call.func.attr
+        if name not in env or attr not in ("append", "extend", "insert", "add", "update", "remove", "pop", "clear", "sort", "reverse", "discard"):
+            return
+        if not kill_only and attr in ("extend", "update") and len(call.args) == 1 and _is_empty(env[name]):
+            m = map_of(call.args[0])
+            if m is not None:
+                env[name] = self._map(call, m, env, 0)
+                return
+            env[name] = self.terms(call.args[0], env)
+            return
+        env[name] = [(TRUE, ("other", f"{name} after {norm(call, 50)}"))]
+
+    def _build_loop(self, s: ast.For, env: dict) -> bool:
+        """`for x in SRC: L.append(f(x))` (optionally under an if) with L empty before the loop: L is map(f, SRC)."""
+        if s.orelse or len(s.body) != 1:
+            return False
+        b = s.body[0]
+        filters = []
+        while isinstance(b, ast.If) and not b.orelse and len(b.body) == 1:
+            filters.append(b.test)
+            b = b.body[0]
+        if not (isinstance(b, ast.Expr) and isinstance(b.value, ast.Call) and isinstance(b.value.func, ast.Attribute) and b.value.func.attr in ("append", "add") and isinstance(b.value.func.value, ast.Name) and len(b.value.args) == 1):
+            return False
+        name = b.value.func.value.id
+        if name not in env or not _is_empty(env[name]):
+            return False
+        env[name] = self._map(s, (s.iter, s.target, b.value.args[0], filters), env, 0)
+        return True
+
     def run(self, stmts: list, env: dict, pc: Formula) -> tuple[dict, Formula, bool]:
         for s in stmts:
             if isinstance(s, (ast.Assign, ast.AnnAssign)):
@@ -308,7 +374,13 @@ class Exec:
                 return env, pc, True
             elif isinstance(s, ast.Expr):
                 self.look(s.value, env, pc)
+                self._mutation(s.value, env)
+            elif isinstance(s, ast.For) and self._build_loop(s, env):
+                continue
             elif isinstance(s, (ast.For, ast.While, ast.With, ast.Try)):
+                for n in ast.walk(s):
+                    if isinstance(n, ast.Call):
+                        self._mutation(n, env, kill_only=True)
                 for fld in ("iter", "test"):
                     x = getattr(s, fld, None)
                     if x is not None:
@@ -335,6 +407,10 @@ def _cons(f: Formula, params: list[str]) -> Formula:
 
     have = atoms_of(f)
     return f_and([f_or([f_not(atom(f"{p} is None")), f_not(atom(f"bool({p})"))]) for p in params if f"{p} is None" in have and f"bool({p})" in have])
+
+
+def _is_empty(alts) -> bool:
+    return len(alts) == 1 and alts[0][1] == ("const", ())
 
 
 def show_term(t) -> str:
